@@ -30,19 +30,23 @@ func lineBreaks(src []byte) int {
 	return n
 }
 
-// errLine extracts N from a message of the form "c:N: text" (the chunk is loaded under the name "c"); -1 when
-// the message does not start with that position prefix.
+// errLine extracts N from a message that starts with the position prefix "chunk:N: " (chunk: the name the chunk
+// was loaded under, without blanks or colons); -1 when the message does not start with such a prefix.
 func errLine(msg string) int {
-	if len(msg) < 4 || msg[0] != 'c' || msg[1] != ':' {
+	i := 0
+	for i < len(msg) && msg[i] != ':' && msg[i] != ' ' {
+		i++
+	}
+	if i == 0 || i >= len(msg) || msg[i] != ':' {
 		return -1
 	}
 	n := 0
-	j := 2
+	j := i + 1
 	for j < len(msg) && msg[j] >= '0' && msg[j] <= '9' {
 		n = n*10 + int(msg[j]-'0')
 		j++
 	}
-	if j == 2 || j >= len(msg) || msg[j] != ':' {
+	if j == i+1 || j >= len(msg) || msg[j] != ':' {
 		return -1
 	}
 	return n
